@@ -83,3 +83,54 @@ def pipeline(ctx, *, configs=None, confirm=True):
             raise MachineryFailure("MC_Pipeline negative control: a non-neutral intermediate fill was not rejected")
     finally:
         tlc.cleanup(wd)
+
+
+LAWS_CFG = """SPECIFICATION Spec
+CHECK_DEADLOCK FALSE
+CONSTANTS MaxLen = {maxlen}
+DtypeClass = "{dt}"
+INVARIANT Exact
+INVARIANT Bracket
+INVARIANT Neutral
+ALIAS Dbg
+"""
+
+
+def laws(ctx, which=("Exact", "Bracket", "Neutral")):
+    """MC_Laws on the live registry + the driver's user-defined aggregations"""
+    from .. import extract, tlc
+
+    rows = _write_table()
+    ctx.cov["live_blueprints"] = len(rows)
+    if ctx.tier == "quick":
+        configs = [dict(maxlen=2, dt="f8"), dict(maxlen=2, dt="i8")]
+    else:
+        configs = [dict(maxlen=3, dt="f8"), dict(maxlen=3, dt="i8"), dict(maxlen=4, dt="b1")]
+    for c in configs:
+        cfg = LAWS_CFG.format(**c)
+        cfg = "\n".join(l for l in cfg.splitlines() if not l.startswith("INVARIANT") or l.split()[1] in which) + "\n"
+        res = shared.run_model(ctx, "MC_Laws", cfg, name=f"MC_Laws[{c['dt']},len<={c['maxlen']}]", constants=str(c),
+                               timeout=3000 if ctx.tier == "thorough" else 900)
+        if res.violated:
+            st = res.error_trace[-1] if res.error_trace else {}
+            raise MachineryFailure(
+                f"MC_Laws: law {res.violated} fails on the live blueprint table for s={st.get('s')} bad={str(st.get('bad'))[:600]} — "
+                "either a blueprint in /repo is unlawful (confirm with the replay drivers) or Aggs.tla misrepresents it")
+    # negative control: nanmean whose counter is combined with max instead of sum must break Exact
+    bad = []
+    for r in rows:
+        r = dict(r)
+        if r["name"] == "nanmean":
+            r["combine"] = [r["combine"][0], "max"] + r["combine"][2:]
+        bad.append(r)
+    wd = tlc.new_workdir("laws-neg")
+    try:
+        body = ",\n  ".join(extract.tla(r) for r in bad)
+        (wd / "AggTable.tla").write_text("---- MODULE AggTable ----\nEXTENDS Integers\nAggTable == <<\n  " + body + "\n>>\n====\n")
+        res = tlc.run_tlc("MC_Laws", LAWS_CFG.format(maxlen=2, dt="f8"), wd, workers=8, timeout=900)
+        tlc.require_ok(res, "MC_Laws negative control")
+        ctx.add_model("MC_Laws(negative control: nanmean counter combined with max)", res, "mutated table")
+        if res.violated != "Exact":
+            raise MachineryFailure("MC_Laws negative control: an unlawful blueprint was not rejected")
+    finally:
+        tlc.cleanup(wd)
